@@ -96,3 +96,57 @@ Theorem C08_refuted_D14 :
        run_reports_deadlock (fin_of p_D14) = false /\ fin_of p_D14 = RunOk.
 Proof. exact D14_deadlock_missed. Qed.
 Print Assumptions C08_refuted_D14.
+
+(* ==== appended by tools/mkprops.py (APPEND table) ==== *)
+
+Require Import LV.Base LV.VV LV.VVFacts LV.Path LV.PathSpec LV.PathTerm LV.PathDistinct LV.PathApi LV.Prog LV.Objects LV.Exec LV.Atomic LV.Ops LV.Check LV.NotifyFacts.
+
+(* Global persistence of notifications (NotifyFacts.v) *)
+(* GLOBAL: a notification is never lost: after notify, over any steps of any threads, the wait proceeds and acquires the notifier's clock *)
+Theorem C08_no_lost_wakeup :
+  forall (e : exec) (a n : nat) (e1 e2 : exec) (b : nat) (e3 e4 : exec),
+       SyncMono.track_ok e ->
+       exec_micro e a (MNotifyPost n) = MOk e1 ->
+       steps_without_wait2 n e1 e2 ->
+       exec_micro e2 b (MNotifyWait1 n) = MOk e3 ->
+       steps_without_wait2 n e3 e4 ->
+       exists e5 : exec,
+         exec_micro e4 b (MNotifyWait2 n) = MOk e5 /\
+         (forall (e' : exec) (pn : panic), exec_micro e4 b (MNotifyWait2 n) <> MFail e' pn) /\
+         (b < length (e_threads e4) -> vle (caus_of e a) (caus_of e5 b)).
+Proof. exact no_lost_wakeup. Qed.
+Print Assumptions C08_no_lost_wakeup.
+
+(* a blocked waiter is not resumed by anything but a notify on its object *)
+Theorem C08_blocked_waiter_stays :
+  forall (b n : nat) (e : exec) (me : nat) (m : micro) (e' : exec) 
+         (s : notify_state) (t : thread),
+       SyncMono.track_ok e ->
+       get_notify e n = Some s ->
+       get_thread e b = Some t ->
+       t_state t = Blocked ->
+       pending_on n t = true ->
+       me <> b ->
+       m <> MNotifyPost n ->
+       exec_micro e me m = MOk e' ->
+       exists t' : thread,
+         get_thread e' b = Some t' /\ t_state t' = Blocked /\ pending_on n t' = true.
+Proof. exact blocked_waiter_stays. Qed.
+Print Assumptions C08_blocked_waiter_stays.
+
+(* at most one spurious return per Notify *)
+Theorem C08_spurious_at_most_once :
+  forall (e : exec) (b n : nat) (s : notify_state) (p : path) (e3 e4 : exec) (b' : nat),
+       SyncMono.track_ok e ->
+       get_notify e n = Some s ->
+       nt_spurious s && negb (nt_did_spur s) = true ->
+       branch_spurious (e_path e) = POk (p, true) ->
+       exec_micro e b (MNotifyWait1 n) = MOk e3 ->
+       any_steps e3 e4 ->
+       exists s4 : notify_state,
+         get_notify e4 n = Some s4 /\
+         nt_did_spur s4 = true /\
+         exec_micro e4 b' (MNotifyWait1 n) = MOk (push_cont e4 b' (wait1_cont n s4)).
+Proof. exact spurious_at_most_once. Qed.
+Print Assumptions C08_spurious_at_most_once.
+
